@@ -43,8 +43,15 @@ def ftext(i):
     return 's == "v%d" and n >= %d and not x%d' % (i % 3, k % 4, i), lambda r, i=i, k=k: r['s'] == 'v%d' % (i % 3) and r['n'] >= k % 4
 
 
+class NameScheme(Exception):
+    pass
+
+
 def gen_names(grid_filter):
-    return sorted(int(k[len('_gen_hsfilter_'):]) for k in vars(grid_filter) if k.startswith('_gen_hsfilter_'))
+    try:
+        return sorted(int(k[len('_gen_hsfilter_'):]) for k in vars(grid_filter) if k.startswith('_gen_hsfilter_'))
+    except ValueError:
+        raise NameScheme()
 
 
 # ------------------------------------------------------------------ deterministic scheduler
@@ -161,6 +168,7 @@ def run(ctx):
             return [i % (cap + 1) for i in range(2 * cap + 40 if thorough else cap + 140)]
         return [rng.randrange(3 * cap + 40) for _ in range(4 * cap if thorough else cap + 300)]
 
+    scheme_broken = False
     for kind in ('ascending', 'repeated', 'hostile', 'random'):
         grid_filter._filter_function.cache_clear()
         import gc
@@ -182,10 +190,16 @@ def run(ctx):
                 ctx.violation('impl-counterexample', 'filter %r, evaluated as number %d of the %s history (capacity %d), returned %r; evaluated first it returns %r'
                               % (text, pos, kind, cap, got, want), {'history': kind, 'position': pos, 'filter': text, 'keys': keys[:pos + 1][-1200:]})
                 return
-            if pos == 0:
-                base = gen_names(grid_filter)[-1]
-            if pos < 30 and i not in early:
-                early[i] = vars(grid_filter)['_gen_hsfilter_%d' % gen_names(grid_filter)[-1]] if pos == len(early) else None
+            try:
+                if pos == 0:
+                    base = gen_names(grid_filter)[-1]
+                if pos < 30 and i not in early:
+                    early[i] = vars(grid_filter)['_gen_hsfilter_%d' % gen_names(grid_filter)[-1]] if pos == len(early) else None
+            except (NameScheme, IndexError, KeyError):
+                if not scheme_broken:
+                    scheme_broken = True
+                    ctx.violation('correspondence-broken', 'the generated functions are no longer module globals named _gen_hsfilter_<counter value> (the cache model names them by the counter)',
+                                  {'component': 'cache-run', 'names': [k for k in vars(grid_filter) if k.startswith('_gen_hsfilter_')][:5]})
         for i, fn in early.items():
             if fn is None:
                 continue
@@ -198,6 +212,8 @@ def run(ctx):
                 return
         # tie with the cache model: which names are left
         gc.collect()      # an evicted wrapper caught in a reference cycle is finalised by the cyclic collector only
+        if scheme_broken:
+            continue
         names = gen_names(grid_filter)
         ans = ctx.model.ask([[Sym('cache-run'), cap] + keys + [k for k in list(early)[:0]]])[0]
         ctx.coverage['traces_validated_against_impl'] += 1
